@@ -1,5 +1,11 @@
 package rules
 
+import (
+	"golang.org/x/tools/go/ssa"
+
+	"verifchk/core"
+)
+
 // Property -> rules. Explanations state the clause decided and what is not decided.
 
 const trustDeps = "dependencies (spec, analysis, swag, strfmt, errors, loads, reflect, regexp) are type-checked but not analysed: summarised by small tables written from reading the pinned versions"
@@ -39,10 +45,45 @@ func init() {
 }
 
 func init() {
+	c07Entries := []string{"Spec", "NewSpecValidator", "(*SpecValidator).Validate"}
 	Properties["C07"] = PropSpec{
-		Rules:       []Rule{NilRule(nil), Bounds(nil), Dyn("D-DYN", []DynEntry{{Func: "(*SchemaValidator).Validate", DataArg: 1}}, jsonDomain, "JSON value domain")},
-		Explanation: "(being extended) NIL: every dereference of a value that may be nil is dominated by a nil test of the same value or access path.",
-		NotDecided:  "Termination; panics inside dependencies.",
-		Assumptions: []string{trustDeps},
+		Rules: []Rule{
+			PanicInventory(c07Entries, []DynEntry{
+				{Func: "(*SchemaValidator).Validate", DataArg: 1},
+				{Func: "(*ParamValidator).Validate", DataArg: 1},
+				{Func: "(*HeaderValidator).Validate", DataArg: 1},
+				{Func: "(*itemsValidator).Validate", DataArg: 2},
+			}, jsonDomain, "JSON value domain (raw document, defaults and examples are decoded JSON)"),
+			NilRule(nil), Bounds(nil), Cow,
+		},
+		Explanation: "The same panic-freedom analyses as C06, from the entry points Spec / NewSpecValidator / (*SpecValidator).Validate: NIL over all functions (nil results of the visited-path heuristic, nil sections after failed expansion, nillable pointer fields of spec structs tested on the same access path, paired (value, error|ok|invalid-result) returns, interprocedural parameter nil-ness, the 'ensure map entry' idiom), PANIC-INVENTORY (reviewed explicit panics, divisions, unchecked assertions and kind-specific reflect calls legal for every dynamic type of decoded JSON reaching them, through the schema, parameter, header and items validators that judge defaults and examples), D-BOUND on every index/slice expression, constant Must-patterns parsed at analysis time.",
+		NotDecided:  "Termination; panics inside dependencies (loader, analysis, spec expander); document shapes the loader itself rejects.",
+		Assumptions: []string{"the document loads (loads.Document non-nil, Spec() non-nil)", "decoded values belong to the JSON value domain", "elements of containers built by the dependencies are non-nil", "pure accessors return the same object when called twice", trustDeps},
+	}
+}
+
+func init() {
+	c06Entries := []string{"AgainstSchema", "NewSchemaValidator", "(*SchemaValidator).Validate"}
+	Properties["C06"] = PropSpec{
+		Rules: []Rule{
+			PanicInventory(c06Entries, []DynEntry{{Func: "(*SchemaValidator).Validate", DataArg: 1}}, jsonDomain, "JSON value domain: nil, bool, float64, string, json.Number, []interface{}, map[string]interface{}, int64"),
+			NilRule(func(p *core.Prog) []*ssa.Parameter {
+				var out []*ssa.Parameter
+				for _, n := range []string{"(*SchemaValidator).Validate", "AgainstSchema"} {
+					if f := p.Func(n); f != nil {
+						for _, prm := range f.Params {
+							if prm.Name() == "data" {
+								out = append(out, prm)
+							}
+						}
+					}
+				}
+				return out
+			}),
+			Bounds(nil), Cow,
+		},
+		Explanation: "PANIC-INVENTORY over the functions reachable from AgainstSchema / NewSchemaValidator / (*SchemaValidator).Validate (CHA-style call graph restricted to the package): every explicit panic is in the reviewed table (D-DOC), every integer division has a divisor excluded from zero by a dominating test (D-DIV), every unchecked type assertion and kind-specific reflect.Value call is legal for every dynamic type of the JSON value domain that can reach it — decided by conditional constant propagation over the dynamic type of the datum (D-DYN, one abstract run per type, Applies() evaluated per kind so that a validator is analysed exactly for the kinds it is dispatched on), pool-layer assertions match the pool's element type (D-POOLTYPE); NIL: every dereference of a possibly-nil value (nil-returning functions with iff-parameter and paired-error refinements, nillable spec fields, map lookups, failed comma-ok forms, interprocedural parameter nil-ness) is dominated by a nil test of the same value or access path; D-BOUND: every index/slice expression is within bounds by a linear argument from dominating conditions and monotone loop variables; constant patterns given to the panicking regexp compile are parsed at analysis time (COW).",
+		NotDecided:  "Termination and stack depth (self-referential $ref, regexp run time); panics inside dependencies or caller-supplied format checkers; values outside the JSON value domain (named Go types, pointers, structs).",
+		Assumptions: []string{"dynamic values belong to the JSON value domain (stated by C06) incl. json.Number and the int64/float64 produced by its conversion", "elements of containers other than dynamic JSON values are non-nil", "pure accessors (Spec(), expandedAnalyzer()) return the same object when called twice", trustDeps},
 	}
 }
